@@ -128,7 +128,12 @@ pub struct UdpSocketImpl {
 
 impl Socket for UdpSocketImpl {
     fn new(address: &SocketAddr, timeout_settings: &Option<TimeoutSettings>) -> GDResult<Self> {
-        let socket = net::UdpSocket::bind("0.0.0.0:0").map_err(|e| SocketBind.context(e))?;
+        // Bind on the unspecified address of the remote's address family
+        let socket = match address {
+            SocketAddr::V4(_) => net::UdpSocket::bind("0.0.0.0:0"),
+            SocketAddr::V6(_) => net::UdpSocket::bind("[::]:0"),
+        }
+        .map_err(|e| SocketBind.context(e))?;
 
         let socket = Self {
             socket,
